@@ -373,3 +373,8 @@ mod tests {
 }
 /* vim: textwidth=80
  */
+
+#[cfg(rustradio_verif)]
+pub mod verif_access {
+    include!(concat!(env!("RUSTRADIO_VERIF_DIR"), "/access/graph.rs"));
+}
